@@ -31,16 +31,36 @@ BUILT = {
          "The probe registry is fixed; reachability for recursive registrations is computed by the harness on it. NoMatchingFromType is never asserted (the code treats an unmatched ident as a concrete type).",
          "proptest-driven operation sequences interpreted against a reference state machine (model-based testing)",
          "DESIGN.md section 5 C16"),
+ "C17": ("exploration",
+         "Coincidence-free generated programs (generics with several instantiations, associated types, two versions, recursion): three random permutations with consistent renumbering must leave the module tokens (or the error) unchanged and induce the same de-duplication groups with outputs identical modulo the suffix bijection; three random reachability-closed sub-registries (PortableRegistry::retain) must yield identical items for every retained path, string-equal descriptions and equally valid examples (C12/C14 oracles) for every retained id; Polkadot sub-registries for the description/example clauses.",
+         "Per-path recursive derives are excluded (they legitimately depend on the first instantiation). Docs are switched off for two-version programs (the kept item takes the first entry's docs). Item identity on Polkadot sub-registries is not claimed.",
+         "proptest-driven generator + metamorphic relations (permutation with renumbering, restriction by reachability)",
+         "DESIGN.md section 5 C17"),
  "C18": ("exploration",
          "For every struct and every variant of every emitted non-generic item of generated registries (and of the full Polkadot registry under four settings) the public composite API (create_composite_ir_kind + CompositeIR::new + upcast_composite) is called and the resulting struct is parsed and compared with the registry field list by the C01 shape oracle, with the tokens/compact markers of the same variant in the emitted enum, and with the derive/attribute model (global only; CompactAs iff configured and exactly one unsigned field <= 128 bits, Cow transparent, boxed integer accepted either way).",
          "Byte-level equality of struct encoding and variant payload follows from shape equality (same oracle as C01).",
          "proptest-driven tape generator + differential oracle (registry field list vs interpreted standalone struct vs the enum's own variant) + derive-set model",
          "DESIGN.md section 5 C18"),
+ "C05": ("exploration",
+         "Coincidence-free generated programs of (generic) definitions in nested modules with 1-3 instantiations each are lowered and generated in lowering order and in two random permutations; a reference translator written from the property text maps each source definition to the expected item (non-skipped parameters in declaration order, source field types under the documented normalisations, one trailing marker naming exactly the otherwise unused parameters) and the emitted item must equal it up to a consistent renaming of the generic parameters.",
+         "The translator's table of rooted prelude paths is the harness' (independent of type_path.rs). Non-coincidence-free programs are discarded (counted). The look-alike stratum (MyBox etc.) is excluded: `type_name.contains(\"Box<\")` also matches MyBox<, a wire-neutral spurious Box documented in DESIGN.md.",
+         "proptest-driven generator of source programs + reference translator (second implementation) + permutation of the registry order",
+         "DESIGN.md section 5 C05"),
  "C06": ("exploration",
          "Thousands of (registry, rich settings) cases - generated programs and Polkadot sub-registries with >= 6 derives, >= 4 attributes, >= 5 per-path/recursive registrations and >= 5 substitutes - are observed (module tokens, de-duplicated registry, validation result as sets) repeatedly in one thread (every HashMap draws fresh RandomState keys), on fresh threads, with the registration calls permuted, and for a sample in fresh processes; all observations must be identical and every derive/attribute list strictly increasing.",
          "'All hash-map seeds' is sampled (tens of RandomStates, a few processes per case). Substitute sources are pairwise distinct so that a permuted history denotes the same rule set.",
          "proptest-driven generator + metamorphic relations (repetition, fresh threads, fresh processes, permuted registration order) + sortedness predicate",
          "DESIGN.md section 5 C06"),
+ "C07": ("exploration",
+         "Generated registries are generated without and with 1-4 generated substitution rules (pass-through; declared generics with fewer/as many/more source idents, target nesting idents at depth 0-3, repeated, permuted, dropped, mixed with fixed arguments) and the two outputs are read in lockstep: no substituted path is defined or referenced, every other item survives, and every field type and every resolve_type_path(id) equals the reference substitution of its unsubstituted form.",
+         "Source idents nested in tuples/arrays/references of the target are outside the documented rule grammar and not generated. Markers of items may differ between the two generations and are ignored here.",
+         "proptest-driven generator of registries and rule sets + reference substitution (second implementation) applied in lockstep to the unsubstituted output",
+         "DESIGN.md section 5 C07"),
+ "C08": ("exploration",
+         "Generated registries (cycles, tuples/arrays/compact/maps/generic arguments between types, random order) and Polkadot sub-registries with global, specific and several overlapping recursive derive and attribute registrations: every emitted item's derive/attribute sets must lie between a lower bound (global + specific + closure of each recursive root over the OUTPUT) and an upper bound (recursive sets only where registry reachability allows), and CompactAs must be present exactly for structs with one plain unsigned field <= 128 bits when configured.",
+         "Boxed integer fields, parameter-typed and compact fields are not asserted for CompactAs (the property text does not decide them).",
+         "proptest-driven generator + set model with lower (output closure) and upper (registry reachability) bounds",
+         "DESIGN.md section 5 C08"),
  "C09": ("exploration",
          "For each generated registry that uses the heap prelude types, docs and compact fields, ALL 32 combinations of the five switches (alloc path, docs, codec attributes, root name, compact+bits paths) are generated; each output is checked directly against the registry (alloc-rooted paths and no std, docs exactly the registry's or none, codec index/compact markers exactly the registry's or none) and a normaliser that replaces exactly the governed tokens must map all 32 outputs to one normal form.",
          "User supplied paths in these settings never start with ::std / an alloc root and carry no codec attribute. Exhaustive over the switch combinations per case, sampled over registries.",
